@@ -8,6 +8,7 @@ mod cdiff;
 mod cdiff_env;
 mod codec;
 mod conc;
+mod core;
 mod dag;
 mod env;
 mod findings;
@@ -83,6 +84,7 @@ fn main() {
             "dag" => dag::run(&toks[1..]),
             "human" => human::run(&toks[1..]),
             "roots" => merkle::run(&toks[1..]),
+            "core" => core::run(&toks[1..]),
             other => {
                 eprintln!("unknown command {}", other);
                 std::process::exit(2);
